@@ -79,7 +79,7 @@ def obligations(ctx):
         T = commit_trace(ctx)
     except AnchorError as e:
         u = unresolved('commit-trace', str(e))
-        return {k: [u] for k in ('O1', 'O2', 'O3', 'O4', 'O5', 'O6')}
+        return {k: [u] for k in ('O0', 'O1', 'O2', 'O3', 'O4', 'O5', 'O6')}
     H = _evs(T, 'W', sub='H')
     D = _evs(T, 'W', sub='D')
     G = _evs(T, 'G')
@@ -281,6 +281,25 @@ def obligations(ctx):
             res.append(ok('C16.O6', 'strict check at %s: all data writes, growth and remap precede it and the header write follows it' % k['loc'], sites=len(D) + len(G) + len(M)))
         # K must be guarded by the strict_mode flag and its result propagated
     out['O6'] = res
+
+    # ---------------- O0: a commit reports success only after it has written a header (a commit that skips its header also skips the alternation:
+    #                  the other slot then keeps a state two commits old, which is what a damaged newest header falls back to)
+    res = list(pre)
+    hn = _nodes(H)
+    if hn:
+        reach = T.reach({T.nodes[0].id}, avoid=hn)
+        offending = [x for x in ok_exits if x in reach]
+        if offending:
+            p = T.path({T.nodes[0].id}, offending[0], avoid=hn)
+            res.append(bad('C12.O0', '%s | ret Ok without a header write' % T.entry.qual,
+                           'commit can return success at %s without having written a header page: the two header slots then no longer hold the last two commits, and a damaged newest '
+                           'header falls back to a state older than the previous commit' % T.nodes[offending[0]].loc(), where=T.nodes[offending[0]].loc(), path=T.describe_path(p or [])))
+        else:
+            res.append(ok('C12.O0', 'every successful return of commit passes a header write', sites=len(ok_exits)))
+    f = fl('C12.O0', ok_exits, 'successful returns of commit') or fl('C12.O0', H, 'header writes')
+    if f:
+        res.append(f)
+    out['O0'] = res
     out['trace'] = T
     return out
 
